@@ -37,6 +37,13 @@ CLAIMED.update({
          "Framebuffer (VesaFbConsole) synchronisation is not part of this check: the driver's own painting is covered by C19; geometries enumerated as in C17.", "7 C18"),
 })
 
+CLAIMED.update({
+ "C05": ("Bounded symbolic model checking of the real setupPDTForKernel at seam level: up to two ELF sections with symbolic address/size/flags and a symbolic kernel offset, 0..2 early reservations, map failure at an arbitrary call - the recorded sequence of (page, frame, flags) map requests equals an independently computed reference (every page of every section in the kernel range, loaded-at frame, W^X flags, never user-accessible, then the early reservations), and the new root is activated last and only on success.",
+         "Seam level: visitElfSectionsFn, mapFn, translateFn, activePDTFn, switchPDTFn and the frame allocator are harness functions (the repository's own test seams); that Map installs a requested translation is C04's subject. Sections of 1 byte..3 pages, <= 2 sections, <= 2 reservations.", "7 C05"),
+ "C06": ("Bounded symbolic model checking of the real page-fault and general-protection handlers and of the zero-frame guard: every bit of the four page-table entries on the faulting path, the fault offset, the error code, the page contents and allocation / temporary-mapping failures are symbolic; resumed iff present, read-only, copy-on-write and the copy could be made, with exactly the leaf entry rewritten (fresh frame, RW, CoW cleared), the copy equal to the page, the TLB entry flushed and the temp mapping removed; every other fault panics and changes nothing; Map / MapTemporary / PageDirectoryTable.Map / IdentityMapRegion refuse a writable mapping of the zero frame for every frame/flag combination; reserveZeroedFrame zeroes, unmaps and arms the guard or returns the failing step's error.",
+         "Seam level (ptePtrFn serves one entry per walk level; mapTemporaryFn, unmapFn, flushTLBEntryFn, readCR2Fn, frame allocator are harness functions); kfmt.Printf/Fprintf stubbed while encoding; the 4096-byte copy is checked at 8 representative offsets; real IDT dispatch (package gate) is outside.", "7 C06"),
+})
+
 NOT_APPLICABLE = {
  "C20": "FindRedirects is filepath.Walk + go/parser + ast.CommentMap + fmt over a source tree on disk; the inputs are directory trees and Go source text reached through OS calls, reflection and ~40k lines of standard library that the SSA executor cannot encode, and the non-reproducibility in question comes from runtime map-iteration randomisation, which is not a function of any solver-visible input. No bounded version is within reach of solver-based checking; see DESIGN.md 8.1.",
 }
